@@ -20,7 +20,8 @@ const (
 	// ContentTypeAudio represents audio content type
 	ContentTypeAudio = "audio"
 	// ContentTypeEmbeddedResource represents embedded resource content type
-	ContentTypeEmbeddedResource = "embedded_resource"
+	// (the MCP schema tags an embedded resource with "resource")
+	ContentTypeEmbeddedResource = "resource"
 )
 
 // MCP protcol Layer
